@@ -536,7 +536,8 @@ def failed_property_ids(h, ovl, r):
         p = subprocess.run(["cbmc", "--show-properties", gb], capture_output=True, text=True, timeout=900)
     except Exception:  # noqa
         return []
-    props = re.findall(r"^Property (\S+):\n\s+file (\S+) line (\d+)[^\n]*\n\s+(.*)$", p.stdout, re.M)
+    # property names of generic functions contain spaces (`f::<2, 0>.assertion.3`)
+    props = re.findall(r"^Property ([^\n]+):\n\s+file (\S+) line (\d+)[^\n]*\n\s+(.*)$", p.stdout, re.M)
     out = []
     for f in r["failed"]:
         desc = f["description"]
@@ -550,8 +551,9 @@ def failed_property_ids(h, ovl, r):
     return out
 
 
-def do_replay_for_failure(h, prop, ovl, tdir, logdir, r):
-    """Re-run with concrete playback, run the counterexample natively; returns (replay_path, reproduced, info)."""
+def replay_phase1(h, ovl, tdir, logdir, r):
+    """Kani's concrete-playback re-run(s) of a failed harness; returns (tests, log of the last run). Safe to run in the
+    worker pool next to other harnesses (it only needs a target directory of its own)."""
     heavy = r.get("sat_vars", 0) > 1500000
     all_tests = []
     pr = {"log": ""}
@@ -582,6 +584,11 @@ def do_replay_for_failure(h, prop, ovl, tdir, logdir, r):
         # (or the same values as a cover witness) only the cover's test is printed. Running the harness natively on those
         # values is the replay all the same: the native test fails iff the harness's assertion fails on them.
         tests = all_tests
+    return tests, pr["log"]
+
+
+def replay_phase2(h, prop, ovl, logdir, r, tests, prlog):
+    """Runs the playback tests natively (serial: it edits the harness file inside the overlay) and writes the replay file."""
     info = {"property": prop, "harness": h.id, "harness_file": h.relfile, "crate": h.crate, "modpath": h.modpath,
             "failed_checks": r["failed"], "desc": h.desc, "bound": h.bound, "tests": [], "created": time.strftime("%Y-%m-%dT%H:%M:%S")}
     reproduced = False
@@ -601,11 +608,17 @@ def do_replay_for_failure(h, prop, ovl, tdir, logdir, r):
         reproduced = reproduced or nat["reproduced"]
     info["reproduced_natively"] = reproduced
     if not tests:
-        info["note"] = "kani produced no concrete playback test (timeout or unsupported); see log %s" % pr["log"]
+        info["note"] = "kani produced no concrete playback test (timeout or unsupported); see log %s" % prlog
     os.makedirs(os.path.join(REPLAY_DIR, prop), exist_ok=True)
     path = os.path.join(REPLAY_DIR, prop, h.id + ".json")
     json.dump(info, open(path, "w"), indent=1)
     return path, reproduced, info
+
+
+def do_replay_for_failure(h, prop, ovl, tdir, logdir, r):
+    """Both phases in a row; returns (replay_path, reproduced, info)."""
+    tests, prlog = replay_phase1(h, ovl, tdir, logdir, r)
+    return replay_phase2(h, prop, ovl, logdir, r, tests, prlog)
 
 
 def cmd_replay(path):
@@ -786,6 +799,7 @@ def cmd_check(prop, tier, only, jobs, keep):
             finally:
                 tdirs.put(t)
 
+        phase1 = {}
         with cf.ThreadPoolExecutor(max_workers=nworkers) as ex:
             futs = {ex.submit(job, h): h for h in order}
             for fut in cf.as_completed(futs):
@@ -804,6 +818,17 @@ def cmd_check(prop, tier, only, jobs, keep):
                         status, reason = "fail", reason
                 r["status"], r["reason"] = status, reason
                 results.append(r)
+                if status == "fail" and h.expect != "fail":
+                    descs0 = sorted(set(x["description"] for x in r["failed"]))
+                    if known_match(known, prop, h, descs0) is None:
+                        # start the playback re-run now, next to the harnesses that are still running
+                        def rjob(h=h, r=r):
+                            t = tdirs.get()
+                            try:
+                                return replay_phase1(h, ovl, t, logdir, r)
+                            finally:
+                                tdirs.put(t)
+                        phase1[h.id] = ex.submit(rjob)
                 print("  %-44s %-12s %6.1fs  checks=%d covers=%d/%d vars=%d %s" % (
                     h.id, status, r["wall_s"], r["checks_total"], r["covers_sat"], r["covers_total"], r["sat_vars"], reason[:150]))
                 sys.stdout.flush()
@@ -822,12 +847,22 @@ def cmd_check(prop, tier, only, jobs, keep):
                         if line not in known_lines:
                             known_lines.append(line)
                     continue
-                path, reproduced, info = do_replay_for_failure(h, prop, ovl, tdir, logdir, r)
+                if h.id in phase1:
+                    try:
+                        tests, prlog = phase1[h.id].result()
+                    except Exception as e:  # noqa
+                        tests, prlog = [], "playback job failed: %s" % e
+                    path, reproduced, info = replay_phase2(h, prop, ovl, logdir, r, tests, prlog)
+                else:
+                    path, reproduced, info = do_replay_for_failure(h, prop, ovl, tdir, logdir, r)
                 r["counterexample"] = [{"check": t["check_desc"], "values": [v["pretty"] for v in t["values"]],
                                         "native": t["native"]["reproduced"], "panic": t["native"]["panic"],
                                         "cli": t.get("cli")} for t in info["tests"]]
                 if reproduced:
                     violations.append((h, path))
+                    print("VIOLATION property=%s replay=%s" % (prop, path))
+                    print("  harness %s: %s" % (h.id, h.desc))
+                    sys.stdout.flush()
                 else:
                     r["status"] = "inconclusive"
                     r["reason"] = "counterexample did not reproduce natively (model/stub discrepancy or Kani-only check): %s" % descs
@@ -837,9 +872,6 @@ def cmd_check(prop, tier, only, jobs, keep):
                        "cargo-kani 0.68.0 / CBMC 6.11.0 / CaDiCaL")
         for line in known_lines:
             print(line)
-        for h, path in violations:
-            print("VIOLATION property=%s replay=%s" % (prop, path))
-            print("  harness %s: %s" % (h.id, h.desc))
         n_ok = sum(1 for r in results if r["status"] in ("pass", "witness-ok", "known"))
         print("[%s/%s] %d/%d harnesses decided ok, %d violation(s), %d inconclusive, wall %.0fs" % (
             prop, tier, n_ok, len(results), len(violations), len(inconclusive), wall))
